@@ -39,3 +39,42 @@ fn c10_filter_noambigorconst_am() { filter_ignores_stored_counts::<3, true, true
 #[kani::proof]
 #[kani::unwind(5)]
 fn c10_filter_noambig() { filter_ignores_stored_counts::<2, false, false>(); }
+
+/// C10.A.delete: `delete_samples` gives the same table whatever counts were stored (a file weeded with
+/// --filter-ambig-as-missing stores counts of unambiguous bases only)
+fn delete_ignores_stored_counts<const DEL: usize>() {
+    const C: usize = 3;
+    let mut row = [0u8; C];
+    let mut j = 0;
+    while j < C { row[j] = any_stored_sym(); j += 1; }
+    kani::assume(present::<C>(&row) >= 1);
+    let stale: usize = kani::any();
+    kani::assume(stale >= 1 && stale <= C); // a stored row has a positive count
+    let mut b = mk_array_counts::<1, C>(&[42u64], &[row], &[stale]);
+    let all = ["a", "b", "c"];
+    b.delete_samples(&[all[DEL]]);
+    let mut left = 0;
+    let mut j = 0;
+    while j < C { if j != DEL && row[j] != b'-' { left += 1; } j += 1; }
+    if left > 0 {
+        assert!(b.variants.nrows() == 1 && b.split_kmers.len() == 1 && b.variant_count.len() == 1, "a k-mer still present in a remaining sample is kept whatever count was stored");
+        assert!(b.variant_count[0] == left, "the saved count is the number of remaining samples with the k-mer");
+        let mut oc = 0;
+        let mut j = 0;
+        while j < C { if j != DEL { assert!(b.variants[[0, oc]] == row[j], "remaining bases"); oc += 1; } j += 1; }
+    } else {
+        assert!(b.variants.nrows() == 0 && b.split_kmers.len() == 0 && b.variant_count.len() == 0, "a k-mer only in the deleted sample is gone");
+    }
+    kani::cover!(left >= 1 && stale < present::<C>(&row), "stored count smaller than the number of bases, k-mer survives");
+    kani::cover!(left == 0, "k-mer disappears with the deleted sample");
+    std::mem::forget(b);
+}
+#[kani::proof]
+#[kani::unwind(6)]
+fn c10_delete_first() { delete_ignores_stored_counts::<0>(); }
+#[kani::proof]
+#[kani::unwind(6)]
+fn c10_delete_middle() { delete_ignores_stored_counts::<1>(); }
+#[kani::proof]
+#[kani::unwind(6)]
+fn c10_delete_last() { delete_ignores_stored_counts::<2>(); }
